@@ -30,7 +30,7 @@ SHAPES = {
 }
 GENERIC = ['L', 'N', 'D', 'LL', 'LI', 'DS', 'LF1']
 # rarely used argument forms, tried on EVERY non-mutator: lists in second / third position, lists of strings, mixed lists
-ANY_POSITION = ['W', 'M', 'SW', 'WS', 'SWW', 'lW', 'WW', 'SM', 'dW', 'MK', 'SWZ']
+ANY_POSITION = ['W', 'M', 'SW', 'WS', 'SWW', 'lW', 'WW', 'SM', 'dW', 'MK', 'SWZ', 'Dd', 'dD', 'DdD', 'DN']
 
 
 def _args(shape, a, b, c, n, flag):
@@ -135,7 +135,11 @@ PIPES = [
     "x = l | filter(v => True)\ny = sorted(x, v => zero - v)\nx == l",
     "x = l | reversed\ny = x | sorted\nw = [x] | map(r => sorted(r))\nx == (l | reversed)",
     "x = cn | sorted(r => len(r))\ny = x | reversed\nz = x | map(r => reversed(r))\nx == [[3], [1, 2]]",
+    # (40..) lambdas with more parameters than the rows they are handed have elements (may fail; must not touch the rows)
+    "rag | map((p, q) => p) | len", "rag | filter((p, q) => p) | len", "sorted(rag, (p, q) => p) | len", "rag | map((p, q, r) => q) | len",
+    "dict(d, cd) | len", "d | dict(cd) | len", "list(l, nn) | len",
 ]
+MAY_FAIL_PIPES = set(range(40, 47))
 MUST_BE_TRUE = set(range(35, 40)) | {34}
 if isinstance(hlib.PARAM, dict) and "pipe" in hlib.PARAM:
     prewarm(PIPES[hlib.PARAM["pipe"]])
@@ -156,18 +160,21 @@ def pipeline(a: int, b: int, c: int, n: int, d1: int, d2: int, d3: int) -> None:
     cn, cd = [[3], [1, 2]], {'p': 3, 'q': [1, 2]}
     big = list(range(10025))
     data, table, jd = {'rows': big}, [[1], big], {1: 'one', 2: [2]}
+    rag = [[a, b], [c], []]
+    snap_rag = _copy.deepcopy(rag)
     snap = _copy.deepcopy((l, nn, d, cn, cd))
     big_len, jd_keys = len(big), list(jd)
     saved = functions.random
     functions.random = RandStub([d1, d2, d3], 0.5)
     try:
-        out = run_eval(PIPES[hlib.PARAM["pipe"]], {'l': l, 'nn': nn, 'd': d, 'cn': cn, 'cd': cd, 'zero': 0, 'one': 1, 'big': big, 'data': data, 'table': table, 'jd': jd}, 1000)
+        out = run_eval(PIPES[hlib.PARAM["pipe"]], {'l': l, 'nn': nn, 'd': d, 'cn': cn, 'cd': cd, 'zero': 0, 'one': 1, 'big': big, 'data': data, 'table': table, 'jd': jd, 'rag': rag}, 1000)
     finally:
         functions.random = saved
     assert (l, nn, d, cn, cd) == snap, "pipeline of non-mutating builtins modified a host object"
+    assert rag == snap_rag, "rows handed to a lambda with more parameters than they have elements were modified"
     assert len(big) == big_len and data['rows'] is big and table[1] is big, "a host list longer than the cap was modified by a non-mutating builtin"
     assert list(jd) == jd_keys, "a host dict with non-string keys was re-keyed by a read"
-    assert out[0] == 'ok' or 25 <= hlib.PARAM["pipe"] <= 27 or (n == 0 and hlib.PARAM["pipe"] in (28, 33)), "pipeline failed: %s" % (out[1].__name__ if out[0] == 'err' else '')
+    assert out[0] == 'ok' or 25 <= hlib.PARAM["pipe"] <= 27 or (n == 0 and hlib.PARAM["pipe"] in (28, 33)) or hlib.PARAM["pipe"] in MAY_FAIL_PIPES, "pipeline failed: %s" % (out[1].__name__ if out[0] == 'err' else '')
     if hlib.PARAM["pipe"] in MUST_BE_TRUE:
         assert out[1] is True, "a value kept in a variable changed when it was handed to a non-mutating builtin / operator"
     hlib.done()
